@@ -284,6 +284,10 @@ pub enum Op {
     Reopen,
     /// time travel: rewrite the stored snapshot's timestamp so that it is `days` days old
     AgeSnapshot { c: u8, days: u16 },
+    /// put the (still unknown) client into the state the server itself leaves between the two
+    /// transactions of a first AddVersion - a client record with no versions and no snapshot -
+    /// through the public storage API; no effect on a client the server already knows
+    NewClient { c: u8 },
 }
 
 impl Op {
@@ -293,7 +297,8 @@ impl Op {
             | Op::GetChild { c, .. }
             | Op::AddSnapshot { c, .. }
             | Op::GetSnapshot { c }
-            | Op::AgeSnapshot { c, .. } => Some(*c),
+            | Op::AgeSnapshot { c, .. }
+            | Op::NewClient { c } => Some(*c),
             Op::Reopen => None,
         }
     }
@@ -305,6 +310,7 @@ impl Op {
             Op::GetSnapshot { .. } => "GetSnapshot",
             Op::Reopen => "Reopen",
             Op::AgeSnapshot { .. } => "AgeSnapshot",
+            Op::NewClient { .. } => "NewClient",
         }
     }
 }
@@ -353,6 +359,12 @@ pub struct GenParams {
     /// per-mille of payloads that are large (0.2-1.5 MB): beyond the default limits of
     /// off-the-shelf body extractors and well into SQLite overflow chains
     pub big_permille: u32,
+    /// probability (0..100) that a client starts as a registered-but-empty record (Op::NewClient)
+    pub empty_client_pct: u32,
+    /// per-mille of payloads that are empty: a zero-length history segment or snapshot is a valid
+    /// argument of the library entry points (the HTTP handlers refuse an empty body, so histories
+    /// driven over HTTP send one byte instead - see hist.rs)
+    pub empty_permille: u32,
 }
 
 impl Default for GenParams {
@@ -368,8 +380,21 @@ impl Default for GenParams {
             small_cfg: true,
             nonnil_base_pct: 30,
             big_permille: 0,
+            empty_client_pct: 8,
+            empty_permille: 0,
         }
     }
+}
+
+pub fn bytes_spec_p(p: &GenParams) -> BoxedStrategy<BytesSpec> {
+    if p.empty_permille == 0 {
+        return bytes_spec_big(p.max_len, p.big_permille);
+    }
+    prop_oneof![
+        1000 - p.empty_permille.min(999) => bytes_spec_big(p.max_len, p.big_permille),
+        p.empty_permille.min(999) => (0u8..N_CLASSES, 0u32..0xFFFF).prop_map(|(class, seed)| BytesSpec { len: 0, class, seed }),
+    ]
+    .boxed()
 }
 
 pub fn bytes_spec_big(max_len: u32, big_permille: u32) -> BoxedStrategy<BytesSpec> {
@@ -440,13 +465,13 @@ pub fn op(n: u8, p: &GenParams) -> BoxedStrategy<Op> {
     let p4 = p.clone();
     prop_oneof![
         p.w[0] => client_idx(n).prop_flat_map(move |c| {
-            (Just(c), idref(c, n, &p2, p2.av_latest_pct), bytes_spec_big(p2.max_len, p2.big_permille))
+            (Just(c), idref(c, n, &p2, p2.av_latest_pct), bytes_spec_p(&p2))
         }).prop_map(|(c, parent, data)| Op::AddVersion { c, parent, data }),
         p.w[1] => client_idx(n).prop_flat_map(move |c| {
             (Just(c), idref(c, n, &p3, 25))
         }).prop_map(|(c, parent)| Op::GetChild { c, parent }),
         p.w[2] => client_idx(n).prop_flat_map(move |c| {
-            (Just(c), idref(c, n, &p4, 30), bytes_spec_big(p4.max_len, p4.big_permille))
+            (Just(c), idref(c, n, &p4, 30), bytes_spec_p(&p4))
         }).prop_map(|(c, version, data)| Op::AddSnapshot { c, version, data }),
         p.w[3] => client_idx(n).prop_map(|c| Op::GetSnapshot { c }),
         p.w[4] => Just(Op::Reopen),
@@ -473,25 +498,22 @@ pub fn case(p: &GenParams) -> BoxedStrategy<Case> {
             // the first op of a client decides the chain base: make non-nil bases common
             let first = {
                 let pct = p.nonnil_base_pct;
+                let empty = p.empty_client_pct;
                 proptest::collection::vec(
-                    (0u32..100, 0u32..4, bytes_spec(p.max_len)),
+                    (0u32..100, 0u32..4, bytes_spec_p(&p), 0u32..100),
                     n as usize,
                 )
                 .prop_map(move |v| {
-                    v.into_iter()
-                        .enumerate()
-                        .filter_map(|(i, (r, lit, data))| {
-                            if r < pct {
-                                Some(Op::AddVersion {
-                                    c: i as u8,
-                                    parent: IdRef::Fresh(100 + i as u32 * 4 + lit),
-                                    data,
-                                })
-                            } else {
-                                None
-                            }
-                        })
-                        .collect::<Vec<_>>()
+                    let mut out = vec![];
+                    for (i, (r, lit, data, e)) in v.into_iter().enumerate() {
+                        if e < empty {
+                            out.push(Op::NewClient { c: i as u8 });
+                        }
+                        if r < pct {
+                            out.push(Op::AddVersion { c: i as u8, parent: IdRef::Fresh(100 + i as u32 * 4 + lit), data });
+                        }
+                    }
+                    out
                 })
             };
             (
